@@ -53,10 +53,50 @@ type c11Case struct {
 	Mult     int
 	Loc      int
 	GitSide  int
+	// GitKind is the form of the value the Git-level copy of the key has: 0 = the dictionary's Git value, 1 = BLANK
+	// (`key =`, the usual way to cancel a value of a lower-priority file), 2 = VALUELESS (`[lfs]\n\tkey`, Git's
+	// spelling of boolean true; the .lfsconfig copy then says "false").
+	GitKind int
 }
 
+var c11GitKinds = []string{"value", "git-blank", "git-valueless"}
+
 func (c c11Case) ID() string {
-	return fmt.Sprintf("%s|%s|%s|%s|%s", c.Key.Canon(), c11Spellings[c.Spelling], c11Mults[c.Mult], c11Locs[c.Loc], c11GitSides[c.GitSide])
+	id := fmt.Sprintf("%s|%s|%s|%s|%s", c.Key.Canon(), c11Spellings[c.Spelling], c11Mults[c.Mult], c11Locs[c.Loc], c11GitSides[c.GitSide])
+	if c.GitKind != 0 {
+		id += "|" + c11GitKinds[c.GitKind]
+	}
+	return id
+}
+
+// effKey is the key of the case with the values the Git-value kind dictates.
+func (c c11Case) effKey() c11Key {
+	k := c.Key
+	switch c.GitKind {
+	case 1:
+		k.GitVal = ""
+	case 2:
+		k.GitVal = ""
+		k.Val = "false"
+	}
+	return k
+}
+
+// c11GitStanza renders the Git-level copy of the key of the case.
+func c11GitStanza(c c11Case) string {
+	k := c.effKey()
+	if c.GitKind == 2 {
+		hdr := "[" + k.Sec + "]"
+		if k.HasSub {
+			hdr = "[" + k.Sec + " " + c11Quote(k.Sub) + "]"
+		}
+		return hdr + "\n\t" + k.Var + "\n"
+	}
+	return c11Stanza(k, 0, k.GitVal)
+}
+
+func c11IsBoolKey(k c11Key) bool {
+	return (k.Val == "true" || k.Val == "false") && (k.GitVal == "true" || k.GitVal == "false")
 }
 
 func c11Quote(s string) string {
@@ -109,7 +149,7 @@ const c11NBaseMults = 6
 // c11LfsConfig returns the .lfsconfig text, the text of the included file ("" if none) and the values of the
 // hostile key that the file carries (last = the one that would be in effect).
 func c11LfsConfig(c c11Case, incPath string) (main, inc string, vals []string, companion string) {
-	k := c.Key
+	k := c.effKey()
 	switch c.Mult {
 	case 0:
 		return c11Stanza(k, c.Spelling, k.Val), "", []string{k.Val}, ""
@@ -143,6 +183,7 @@ type c11Worker struct {
 	readmeBlobNB, readmeBlobB   string
 	baseline                    map[string]map[string]string
 	env                         []string
+	curKey                      string // canonical key of the case being observed
 }
 
 var c11FixedDateEnv = []string{"GIT_AUTHOR_DATE=2024-01-01T12:00:00Z", "GIT_COMMITTER_DATE=2024-01-01T12:00:00Z"}
@@ -258,6 +299,9 @@ type c11Obs struct {
 	Stderr  string
 	LoadErr bool
 	Panic   string
+	// Get is what the real Git.Get answers for the key of the case (what Bool/Int/the endpoint finder use)
+	Get   string
+	GetOK bool
 }
 
 // observe loads the configuration the way every git-lfs command does and takes the semantic snapshot.
@@ -289,6 +333,9 @@ func (w *c11Worker) observe(repo string) (o c11Obs) {
 	}()
 	cfg := config.New()
 	o.All = cfg.Git.All()
+	if w.curKey != "" {
+		o.Get, o.GetOK = cfg.Git.Get(w.curKey)
+	}
 	s := map[string]string{}
 	o.Snap = s
 	s["remote"] = cfg.Remote()
@@ -408,7 +455,7 @@ func (w *c11Worker) place(c c11Case, withLfsConfig bool) (repo string) {
 		// (extensions.objectformat): the Git-side copy of such a key needs repositoryformatversion = 1.
 		gcfg = strings.Replace(gcfg, "repositoryformatversion = 0", "repositoryformatversion = 1", 1)
 	}
-	gitStanza := c11Stanza(c.Key, 0, c.Key.GitVal)
+	gitStanza := c11GitStanza(c)
 	gs := c.GitSide
 	if gs == 5 && bare {
 		gs = 1
@@ -421,7 +468,7 @@ func (w *c11Worker) place(c c11Case, withLfsConfig bool) (repo string) {
 	case 3:
 		os.Setenv("GIT_CONFIG_COUNT", "1")
 		os.Setenv("GIT_CONFIG_KEY_0", c.Key.Canon())
-		os.Setenv("GIT_CONFIG_VALUE_0", c.Key.GitVal)
+		os.Setenv("GIT_CONFIG_VALUE_0", c.effKey().GitVal)
 	case 4:
 		p := filepath.Join(w.incDir, "gitinc.cfg")
 		os.WriteFile(p, []byte(gitStanza), 0644)
@@ -459,6 +506,23 @@ func (w *c11Worker) place(c c11Case, withLfsConfig bool) (repo string) {
 		w.setRef(repo, w.commit(repo, w.readmeBlobB, blob))
 	}
 	return repo
+}
+
+// gitAnswer asks Git itself what the value of a key is in the repository as placed (`git config --get`, with
+// --type=bool for the valueless form): ok=false when Git does not answer (key unset at Git level, or a key it rejects).
+func (w *c11Worker) gitAnswer(repo, canon string, asBool bool) (val string, ok bool) {
+	args := []string{"config", "--get"}
+	if asBool {
+		args = append(args, "--type=bool")
+	}
+	cmd := exec.Command("git", append(args, canon)...)
+	cmd.Dir = repo
+	cmd.Env = os.Environ()
+	out, err := cmd.Output()
+	if err != nil {
+		return "", false
+	}
+	return strings.TrimSuffix(string(out), "\n"), true
 }
 
 // fields of the snapshot that a documented key may legitimately change
@@ -552,7 +616,13 @@ func c11InprocCase(x *vx.X, thorough bool) c11Case {
 	if thorough {
 		// 0 = full product with gitside in {absent, local}; 1 = Git-level slice (every level x every location);
 		// 2 = coincidence slice (level keys x duplicated-with-Git's-value multiplicities x every level x every location)
-		top := x.In(3)
+		top := x.In(4)
+		if top == 3 {
+			// Git-value slice: the Git-level copy of the key is BLANK (level keys x every level x every location) or
+			// VALUELESS (boolean keys x file-based levels x every location)
+			c11GitValueSlice(x, &c, true)
+			return c
+		}
 		if top == 0 {
 			c.Key = c11Keys[x.In(len(c11Keys))]
 			c.Spelling = x.In(nSpell(c.Key))
@@ -570,7 +640,10 @@ func c11InprocCase(x *vx.X, thorough bool) c11Case {
 		c.Loc = x.In(len(c11Locs))
 		return c
 	}
-	switch x.In(6) {
+	switch x.In(7) {
+	case 6: // Git-value slice: the Git-level copy of the key is BLANK (level keys x (5 Git levels at worktree + Git-local at the
+		// 3 other locations)) or VALUELESS (boolean keys x the 4 file-based Git levels at worktree)
+		c11GitValueSlice(x, &c, false)
 	case 5: // coincidence slice: the duplicated .lfsconfig key repeats the value Git's own configuration has
 		// (documented keys: every Git level; remote.* / lfs.extension.* keys: Git-local), worktree location
 		sub := c11LevelKeys()
@@ -613,6 +686,50 @@ func c11InprocCase(x *vx.X, thorough bool) c11Case {
 	return c
 }
 
+// c11FileLevels are the Git levels that are files (a valueless key cannot be given through GIT_CONFIG_COUNT).
+var c11FileLevels = []int{1, 2, 4, 5}
+
+func c11GitValueSlice(x *vx.X, c *c11Case, thorough bool) {
+	c.GitKind = 1 + x.In(2)
+	if c.GitKind == 1 {
+		sub := c11LevelKeys()
+		c.Key = sub[x.In(len(sub))]
+		nl := len(c11GitSides) - 1
+		if thorough {
+			c.GitSide = 1 + x.In(nl)
+			c.Loc = x.In(len(c11Locs))
+			return
+		}
+		v := x.In(nl + len(c11Locs) - 1)
+		if v < nl {
+			c.GitSide = 1 + v
+		} else {
+			c.GitSide = 1
+			c.Loc = 1 + v - nl
+		}
+		return
+	}
+	sub := c11BoolKeys()
+	c.Key = sub[x.In(len(sub))]
+	c.GitSide = c11FileLevels[x.In(len(c11FileLevels))]
+	if thorough {
+		c.Loc = x.In(len(c11Locs))
+	}
+}
+
+var c11BoolKeysCache []c11Key
+
+func c11BoolKeys() []c11Key {
+	if c11BoolKeysCache == nil {
+		for _, k := range c11Keys {
+			if c11IsBoolKey(k) {
+				c11BoolKeysCache = append(c11BoolKeysCache, k)
+			}
+		}
+	}
+	return c11BoolKeysCache
+}
+
 var c11LevelKeysCache []c11Key
 
 func c11LevelKeys() []c11Key {
@@ -630,8 +747,9 @@ func c11LevelKeys() []c11Key {
 // runInproc executes one case inside a worker process.
 func (w *c11Worker) runInproc(x *vx.X, thorough bool) vx.Result {
 	c := c11InprocCase(x, thorough)
-	k := c.Key
+	k := c.effKey()
 	canon := k.Canon()
+	w.curKey = canon
 	_, _, lvals, companion := c11LfsConfig(c, "")
 	lkeys := []string{canon}
 	if companion != "" {
@@ -642,6 +760,8 @@ func (w *c11Worker) runInproc(x *vx.X, thorough bool) vx.Result {
 	bkey := fmt.Sprintf("%v|%d|%s", c.Loc == 3, c.GitSide, canon)
 	if c.GitSide == 0 {
 		bkey = fmt.Sprintf("%v|0", c.Loc == 3)
+	} else if c.GitKind != 0 {
+		bkey += "|" + c11GitKinds[c.GitKind]
 	}
 	base, ok := w.baseline[bkey]
 	if !ok {
@@ -657,6 +777,16 @@ func (w *c11Worker) runInproc(x *vx.X, thorough bool) vx.Result {
 	}
 	repo := w.place(c, true)
 	o := w.observe(repo)
+	// what Git itself answers for the key in this repository (last value wins, blank included); the dictionary's
+	// Git value is only the fallback for keys `git config --get` does not answer for
+	gitSays, gitAnswered := k.GitVal, false
+	if c.GitSide != 0 {
+		if v, ok := w.gitAnswer(repo, canon, c.GitKind == 2); ok {
+			gitSays, gitAnswered = v, true
+		} else if c.GitKind == 2 {
+			gitSays = "true"
+		}
+	}
 
 	r := vx.Result{}
 	sample := map[string]interface{}{"case": c.ID(), "key": canon, "lfsconfig_value": k.Val}
@@ -680,7 +810,7 @@ func (w *c11Worker) runInproc(x *vx.X, thorough bool) vx.Result {
 	if c.GitSide != 0 {
 		lonly = nil
 		for _, v := range lvals {
-			if v != k.GitVal {
+			if v != k.GitVal && !(gitAnswered && c.GitKind != 2 && v == gitSays) {
 				lonly = append(lonly, v)
 			}
 		}
@@ -694,6 +824,10 @@ func (w *c11Worker) runInproc(x *vx.X, thorough bool) vx.Result {
 	last := ""
 	if len(all) > 0 {
 		last = all[len(all)-1]
+	}
+	if o.GetOK || len(all) == 0 {
+		// the value in effect is what the real Git.Get returns (Bool, Int, the endpoint finder, URLConfig all go through it)
+		last = o.Get
 	}
 	inEffect := visible && (c11Contains(lonly, last) || c11ReMultiReaders.MatchString(c11FoldKey(canon)))
 	warned := strings.Contains(o.Stderr, "keys were ignored") && strings.Contains(o.Stderr, "  "+canon+"\n")
@@ -733,15 +867,26 @@ func (w *c11Worker) runInproc(x *vx.X, thorough bool) vx.Result {
 	prec := ""
 	if c.GitSide != 0 && !o.LoadErr {
 		prec = " git-wins"
-		if last == k.GitVal {
+		if c.GitKind != 0 {
+			prec = " git-wins(" + c11GitKinds[c.GitKind] + ")"
+		}
+		sample["git_config_get"] = gitSays
+		sample["git_answered"] = gitAnswered
+		if last == gitSays && (o.GetOK || gitSays == "") {
 			// Git's value is the effective one
-		} else if !c11Contains(lonly, last) {
+		} else if !o.GetOK || !c11Contains(lonly, last) {
 			// neither value is what git-lfs uses (e.g. a key git-lfs cannot parse out of `git config -l`): nobody wins
 			prec = " neither-wins"
 		} else {
 			prec = " GIT-LOSES"
-			viol("C11:lfsconfig-beats-git:"+class+":"+c11GitSides[c.GitSide],
-				fmt.Sprintf("key %q is set to %q in Git's own configuration (%s) and to %q in .lfsconfig, but Git.Get returns %q (all=%q)", canon, k.GitVal, c11GitSides[c.GitSide], lvals, last, all))
+			if c.GitKind != 0 {
+				prec += "(" + c11GitKinds[c.GitKind] + ")"
+			}
+			fp := "C11:lfsconfig-beats-git:" + class + ":" + c11GitSides[c.GitSide]
+			if c.GitKind == 2 {
+				fp = "C11:lfsconfig-beats-valueless-git-key:" + class
+			}
+			viol(fp, fmt.Sprintf("key %q is set in Git's own configuration (%s, %s; `git config --get` answers %q) and to %q in .lfsconfig, but Git.Get returns %q (all=%q)", canon, c11GitSides[c.GitSide], c11GitKinds[c.GitKind], gitSays, lvals, last, all))
 		}
 	}
 	// semantic snapshot against the baseline
@@ -796,8 +941,11 @@ func (w *c11Worker) runInproc(x *vx.X, thorough bool) vx.Result {
 		}
 		if len(beaten) > 0 {
 			eff += " GIT-LOSES-IN-EFFECT"
-			viol("C11:lfsconfig-beats-git-in-effect:"+class+":"+c11GitSides[c.GitSide],
-				fmt.Sprintf("key %q is set to %q in Git's own configuration (%s) and to %q in .lfsconfig; Git's value must win, but what git-lfs does differs from the same Git configuration without .lfsconfig: %s", canon, k.GitVal, c11GitSides[c.GitSide], lvals, strings.Join(beaten, "; ")))
+			fp := "C11:lfsconfig-beats-git-in-effect:" + class + ":" + c11GitSides[c.GitSide]
+			if c.GitKind == 2 {
+				fp = "C11:lfsconfig-beats-valueless-git-key:" + class
+			}
+			viol(fp, fmt.Sprintf("key %q is set to %q in Git's own configuration (%s) and to %q in .lfsconfig; Git's value must win, but what git-lfs does differs from the same Git configuration without .lfsconfig: %s", canon, k.GitVal, c11GitSides[c.GitSide], lvals, strings.Join(beaten, "; ")))
 		}
 		if len(unexplained) > 0 {
 			eff += " UNDOCUMENTED-EFFECT"
@@ -1056,12 +1204,12 @@ func TestVerifC11(t *testing.T) {
 			os.Setenv("VERIF_TIER", rf.Tier) // worker processes read it
 		}
 	}
-	c.Rule = "inproc: one case = one .lfsconfig holding ONE dictionary key (section x subsection shape x variable; dictionary = curated list of every key git-lfs/git reads " +
+	c.Rule = "inproc: one case = one .lfsconfig holding ONE dictionary key (section x subsection shape {none, plain name, dotted name, URL, empty, name with '=', names whose components are variable names of the allowed key forms: x.lfsurl, lfsurl, x.access, access, lfsurl.x} x variable; dictionary = curated list of every key git-lfs/git reads " +
 		"+ every key literal extracted from the Go sources of the tree at check time) in one spelling {lower, UPPER, Mixed, [section.sub] syntax} and multiplicity " +
 		"{single, duplicated, next to a safe key, via [include], injected through a newline in a safe key's value, followed by a garbage line; with a Git-side value also: duplicated with one copy equal to Git's value} at one location " +
-		"{worktree file, index only, HEAD only, bare HEAD} with the same key absent/present at one level of Git's own configuration {local, global, GIT_CONFIG_COUNT env, included file, worktree config}; " +
+		"{worktree file, index only, HEAD only, bare HEAD} with the same key absent/present at one level of Git's own configuration {local, global, GIT_CONFIG_COUNT env, included file, worktree config}, the Git-level copy holding the dictionary's Git value, a BLANK value (`key =`) or, for boolean keys, the VALUELESS form (`[lfs]\\n\\tkey` = true, .lfsconfig then says false); 'Git wins' is judged against what `git config --get` itself answers in the case repository and against the real Git.Get; " +
 		"loaded by the real config.New() in a process whose cwd is the repository and observed through Git.All(), Extensions(), Remotes(), Remote()/PushRemote(), the real endpoint finder and tq manifest. " +
-		"quick = union of axis-aligned slices (all keys x 4 locations; all keys x applicable spellings; all keys x multiplicities [garbage-line variant: level keys only]; all keys x Git-local; documented/remote.*/lfs.extension.* keys x (5 Git levels at worktree + Git-local at the 3 other locations); coincidence slice: the same level keys listed twice/thrice in .lfsconfig with one value EQUAL to the Git-level value {[gitval,other],[other,gitval],[gitval,gitval,other]} x (documented keys: 5 Git levels, others: Git-local) at worktree), thorough = full product keys x spellings x multiplicities x locations x {absent, Git-local} + level keys x 5 levels x 4 locations + coincidence slice x 5 levels x 4 locations. " +
+		"quick = union of axis-aligned slices (all keys x 4 locations; all keys x applicable spellings; all keys x multiplicities [garbage-line variant: level keys only]; all keys x Git-local; documented/remote.*/lfs.extension.* keys x (5 Git levels at worktree + Git-local at the 3 other locations); coincidence slice: the same level keys listed twice/thrice in .lfsconfig with one value EQUAL to the Git-level value {[gitval,other],[other,gitval],[gitval,gitval,other]} x (documented keys: 5 Git levels, others: Git-local) at worktree; Git-value slice: level keys x BLANK Git value x (5 Git levels at worktree + Git-local at the 3 other locations) and boolean keys x VALUELESS Git key x 4 file-based Git levels at worktree), thorough = full product keys x spellings x multiplicities x locations x {absent, Git-local} + level keys x 5 levels x 4 locations + coincidence slice x 5 levels x 4 locations + Git-value slice x every level x 4 locations. " +
 		"e2e: one case = one hostile key group (or all groups together) placed in .lfsconfig / in Git's own config (control) / in both, at one location, then a fixed script of real git-lfs commands " +
 		"(env, add via filter-process, push, fetch, pull, locks, smudge, install --local, ext list) against a good and an evil fake LFS server with sentinel programs. " +
 		"distinct_nontrivial = distinct cases in which the .lfsconfig was demonstrably parsed by git-lfs (its key was reported as ignored, or a value of it reached the environment)"
@@ -1078,7 +1226,10 @@ func TestVerifC11(t *testing.T) {
 	c.Bounds["locations"] = len(c11Locs)
 	c.Bounds["git_levels"] = len(c11GitSides) - 1
 	c.Bounds["level_slice_keys"] = len(c11LevelKeys())
-	c.Bounds["inproc_space"] = map[bool]string{false: "union of 5 axis-aligned slices", true: "full product keys x spellings x multiplicities x locations x {absent,local} + level slice"}[thorough]
+	c.Bounds["subsection_shapes"] = len(c11Shapes)
+	c.Bounds["git_value_kinds"] = len(c11GitKinds)
+	c.Bounds["boolean_keys_valueless_slice"] = len(c11BoolKeys())
+	c.Bounds["inproc_space"] = map[bool]string{false: "union of 7 axis-aligned slices", true: "full product keys x spellings x multiplicities x locations x {absent,local} + level slice + coincidence slice + Git-value slice"}[thorough]
 	c.Bounds["reader_patterns_found_in_source"] = c11Rd.Found
 	c.Bounds["reader_patterns_not_in_curated_list"] = len(c11Rd.Extracted)
 
@@ -1140,7 +1291,7 @@ func TestVerifC11(t *testing.T) {
 
 	only := os.Getenv("VERIF_ONLY")
 	// the two parts run concurrently: both mostly wait for git / git-lfs subprocesses
-	deadline := c.DeadlineAfter(150*time.Second, 22*time.Minute)
+	deadline := c.DeadlineAfter(185*time.Second, 22*time.Minute)
 	var e2eStats, inprocStats *vx.Stats
 	var wg sync.WaitGroup
 	if only == "" || only == "e2e" {
